@@ -15,7 +15,21 @@ fn judge(input: &[u8], size: usize, loc: &mut Local) {
     loc.traces += 1;
     loc.state(mix(fnv64(input), size as u64), input.len() >= size && size > 0);
     let details = || json!({"input_hex": hex_short(input), "size": size});
-    let r = catch(|| dlt_zero_terminated_string(input, size).map(|(rest, s)| (rest.len(), rest.as_ptr() as usize, s.to_string())));
+    // the text is taken over as BYTES first: a &str that is not valid UTF-8 (undefined behaviour behind
+    // from_utf8_unchecked) must never be formatted or compared as a string
+    let r = catch(|| dlt_zero_terminated_string(input, size).map(|(rest, s)| (rest.len(), rest.as_ptr() as usize, s.as_bytes().to_vec())));
+    let r = match r {
+        Ok(Ok((a, b, bytes))) => match String::from_utf8(bytes) {
+            Ok(s) => Ok(Ok((a, b, s))),
+            Err(e) => {
+                loc.outcome("invalid UTF-8 text");
+                loc.violation("field text is not valid UTF-8", format!("dlt_zero_terminated_string({}, {}) returned a &str holding the bytes {} (not valid UTF-8)", hex_short(input), size, hex(e.as_bytes())), details());
+                return;
+            }
+        },
+        Ok(Err(e)) => Ok(Err(e)),
+        Err(p) => Err(p),
+    };
     match r {
         Err(p) => loc.violation("dlt_zero_terminated_string panics", format!("dlt_zero_terminated_string({}, {}) panicked: {}", hex_short(input), size, p), details()),
         Ok(res) => {
